@@ -120,3 +120,636 @@ Proof.
   - apply (is_quoted_simple 34); auto.
     apply (dq_is_quoted dq_char (fun c => raw_ok c = true)); auto using dq_char_shape.
 Qed.
+(* ------------------------------------------------------------------ multi-line values: one item per line *)
+Fixpoint join_nl (l : list text) : text :=
+  match l with
+  | [] => []
+  | [x] => x
+  | x :: r => x ++ 10 :: join_nl r
+  end.
+
+Definition no_lf (t : text) : Prop := ~ In 10 t.
+
+Lemma split_nl_app_nolf : forall x rest, no_lf x ->
+  split_nl (x ++ 10 :: rest) = x :: split_nl rest.
+Proof.
+  induction x as [|c x IH]; intros rest H.
+  - cbn [app split_nl]. destruct (split_nl rest) eqn:E.
+    + destruct rest; cbn in E; [discriminate|]. destruct (split_nl rest); [discriminate|destruct (n =? 10); discriminate].
+    + rewrite N.eqb_refl. reflexivity.
+  - cbn [app split_nl]. rewrite IH by (intros Hin; apply H; right; exact Hin).
+    replace (c =? 10) with false; [reflexivity|].
+    symmetry. apply N.eqb_neq. intros E. apply H. left. auto.
+Qed.
+
+Lemma split_nl_nolf : forall x, no_lf x -> split_nl x = [x].
+Proof.
+  induction x as [|c x IH]; intros H; [reflexivity|].
+  cbn [split_nl]. rewrite IH by (intros Hin; apply H; right; exact Hin).
+  replace (c =? 10) with false; [reflexivity|].
+  symmetry. apply N.eqb_neq. intros E. apply H. left. auto.
+Qed.
+
+Lemma split_join_nl : forall l, l <> [] -> Forall no_lf l -> split_nl (join_nl l) = l.
+Proof.
+  induction l as [|x l IH]; intros Hne H; [congruence|].
+  inversion H; subst. destruct l as [|y l].
+  - cbn [join_nl]. apply split_nl_nolf. assumption.
+  - change (join_nl (x :: y :: l)) with (x ++ 10 :: join_nl (y :: l)).
+    rewrite split_nl_app_nolf by assumption. f_equal. apply IH; [discriminate | assumption].
+Qed.
+
+Lemma filter_nonempty_id : forall l, Forall (fun t => t <> []) l -> filter nonempty l = l.
+Proof.
+  induction l as [|x l IH]; intros H; [reflexivity|]. inversion H; subst.
+  cbn [filter]. destruct x; [congruence|]. cbn [nonempty]. f_equal. apply IH. assumption.
+Qed.
+
+Lemma rstrip_nl_last_nonempty : forall v c, c <> 10 -> rstrip_nl (v ++ [c]) = v ++ [c].
+Proof.
+  induction v as [|x v IH]; intros c Hc.
+  - cbn. replace (c =? 10) with false by (symmetry; apply N.eqb_neq; exact Hc). reflexivity.
+  - cbn [app rstrip_nl]. rewrite IH by exact Hc. destruct (v ++ [c]) eqn:E; [destruct v; discriminate | reflexivity].
+Qed.
+
+Lemma join_nl_ends : forall l x, l <> [] -> last l [] = x -> exists pre, join_nl l = pre ++ x.
+Proof.
+  induction l as [|y l IH]; intros x Hne Hl; [congruence|].
+  destruct l as [|z l].
+  - cbn in Hl. subst. exists []. reflexivity.
+  - change (join_nl (y :: z :: l)) with (y ++ 10 :: join_nl (z :: l)).
+    destruct (IH x) as (pre & E); [discriminate | exact Hl|]. rewrite E. exists (y ++ 10 :: pre).
+    rewrite <- app_assoc. reflexivity.
+Qed.
+
+Lemma join_nl_has_lf : forall x y l, In 10 (join_nl (x :: y :: l)).
+Proof.
+  intros x y l. change (join_nl (x :: y :: l)) with (x ++ 10 :: join_nl (y :: l)).
+  apply in_or_app. right. left. reflexivity.
+Qed.
+
+(* setup.cfg style: every non-empty line is one item, in order *)
+Lemma ini_value_multiline : forall x y l,
+  let items := x :: y :: l in
+  let v := join_nl items in
+  Forall no_lf items -> Forall (fun t => t <> []) items ->
+  starts_with 91 v && ends_with 93 v = false -> is_quoted v true = false ->
+  ini_value true v = IVal (VList items).
+Proof.
+  intros x y l items v Hnl Hne Hl Hq. unfold ini_value.
+  assert (Hv : v <> []).
+  { intros E. pose proof (join_nl_has_lf x y l) as H. fold items in H. fold v in H. rewrite E in H. destruct H. }
+  destruct v as [|c r] eqn:Ev; [congruence|]. cbn [nonempty negb andb]. rewrite Hl, Hq. cbn [andb].
+  assert (Hr : rstrip_nl (c :: r) = c :: r).
+  { destruct (exists_last (l := items)) as (pre & z & Ez); [discriminate|].
+    assert (Hz : z <> []).
+    { rewrite Forall_forall in Hne. apply Hne. rewrite Ez. apply in_or_app. right. left. reflexivity. }
+    assert (Hz10 : no_lf z).
+    { rewrite Forall_forall in Hnl. apply Hnl. rewrite Ez. apply in_or_app. right. left. reflexivity. }
+    destruct (join_nl_ends items z) as (p & Ep); [discriminate | rewrite Ez; apply last_last |].
+    fold v in Ep. rewrite Ev in Ep. rewrite Ep.
+    destruct (exists_last Hz) as (z' & w & Ew). rewrite Ew. rewrite app_assoc.
+    apply rstrip_nl_last_nonempty. intros E. apply Hz10. rewrite Ew. apply in_or_app. right. left. auto. }
+  rewrite Hr.
+  assert (Hex : existsb (N.eqb 10) (c :: r) = true).
+  { apply existsb_exists. exists 10. split; [| reflexivity]. rewrite <- Ev. apply join_nl_has_lf. }
+  rewrite Hex. rewrite <- Ev. unfold v. rewrite split_join_nl by (assumption || discriminate).
+  rewrite filter_nonempty_id by assumption. reflexivity.
+Qed.
+(* ------------------------------------------------------------------ the unknown-key filter *)
+Lemma dict_set_fresh : forall (V : Type) k (v : V) d, ~ In k (map fst d) -> dict_set k v d = d ++ [(k, v)].
+Proof.
+  induction d as [|[k' v'] d IH]; intros H; [reflexivity|].
+  cbn [dict_set]. replace (text_eqb k k') with false.
+  - cbn [app]. f_equal. apply IH. intros Hin. apply H. right. exact Hin.
+  - symmetry. apply text_eqb_neq. intros E. apply H. left. cbn. auto.
+Qed.
+
+(* what the filter is MEANT to do, stated on lists *)
+Definition keep_known {V : Type} (known : list text) (data : list (text * V)) : list (text * V) :=
+  filter (fun kv => mem_text (fst kv) known) data.
+Definition unknown_keys {V : Type} (known : list text) (data : list (text * V)) : list text :=
+  map fst (filter (fun kv => negb (mem_text (fst kv) known)) data).
+
+Lemma validate_loop_spec : forall (V : Type) known (data : list (text * V)) acc warns,
+  NoDup (map fst acc ++ map fst data) ->
+  validate_loop known data acc warns = (acc ++ keep_known known data, warns ++ unknown_keys known data).
+Proof.
+  intros V known. induction data as [|[k v] data IH]; intros acc warns Hnd.
+  - cbn. rewrite !app_nil_r. reflexivity.
+  - cbn [map fst] in Hnd.
+    assert (Hk : ~ In k (map fst acc)).
+    { apply NoDup_remove_2 in Hnd. intros Hin. apply Hnd. apply in_or_app. left. exact Hin. }
+    assert (Hnd' : NoDup (map fst acc ++ map fst data)) by (apply NoDup_remove_1 in Hnd; exact Hnd).
+    unfold keep_known, unknown_keys. cbn [validate_loop filter fst].
+    destruct (mem_text k known) eqn:E; cbn [negb map fst].
+    + rewrite dict_set_fresh by exact Hk. rewrite IH.
+      * unfold keep_known, unknown_keys. rewrite <- app_assoc. reflexivity.
+      * rewrite map_app. cbn [map fst]. rewrite <- app_assoc. exact Hnd.
+    + rewrite IH by exact Hnd'. unfold keep_known, unknown_keys. rewrite <- app_assoc. reflexivity.
+Qed.
+
+Theorem validate_spec : forall (V : Type) table (data : list (text * V)),
+  NoDup (map fst data) ->
+  validate table data = (keep_known (known_keys table) data, unknown_keys (known_keys table) data).
+Proof.
+  intros V table data H. unfold validate. rewrite validate_loop_spec by exact H. reflexivity.
+Qed.
+
+Theorem validate_keys_known : forall (V : Type) table (data : list (text * V)) k v,
+  NoDup (map fst data) -> In (k, v) (fst (validate table data)) ->
+  In k (known_keys table) /\ In (k, v) data.
+Proof.
+  intros V table data k v H Hin. rewrite validate_spec in Hin by exact H. cbn [fst] in Hin.
+  unfold keep_known in Hin. apply filter_In in Hin. destruct Hin as [Hd Hk]. cbn [fst] in Hk.
+  split; [apply mem_text_In; exact Hk | exact Hd].
+Qed.
+
+Lemma NoDup_map_filter : forall (A B : Type) (f : A -> B) (p : A -> bool) l,
+  NoDup (map f l) -> NoDup (map f (filter p l)).
+Proof.
+  induction l as [|x l IH]; intros H; [constructor|].
+  cbn [map] in H. inversion H as [|? ? Hx Hl]; subst. cbn [filter].
+  destruct (p x); [|apply IH; exact Hl].
+  cbn [map]. constructor; [|apply IH; exact Hl].
+  intros Hin. apply Hx. apply in_map_iff in Hin. destruct Hin as (y & E & Hy).
+  apply filter_In in Hy. destruct Hy as [Hy _]. apply in_map_iff. exists y. auto.
+Qed.
+
+(* exactly one warning per unknown key, none for a known key *)
+Theorem validate_warnings : forall (V : Type) table (data : list (text * V)),
+  NoDup (map fst data) ->
+  NoDup (snd (validate table data)) /\
+  forall k, In k (snd (validate table data)) <-> (In k (map fst data) /\ ~ In k (known_keys table)).
+Proof.
+  intros V table data H. rewrite validate_spec by exact H. cbn [snd]. unfold unknown_keys. split.
+  - apply NoDup_map_filter. exact H.
+  - intros k. rewrite in_map_iff. split.
+    + intros ([k' v] & E & Hin). cbn [fst] in E. subst k'. apply filter_In in Hin. destruct Hin as [Hin Hk].
+      cbn [fst] in Hk. apply negb_true_iff in Hk. split.
+      * apply in_map_iff. exists (k, v). auto.
+      * intros Hkn. apply mem_text_In in Hkn. congruence.
+    + intros [Hin Hk]. apply in_map_iff in Hin. destruct Hin as ([k' v] & E & Hin). cbn [fst] in E. subst k'.
+      exists (k, v). split; [reflexivity|]. apply filter_In. split; [exact Hin|]. cbn [fst].
+      apply negb_true_iff. apply not_true_is_false. intros Hm. apply Hk. apply mem_text_In. exact Hm.
+Qed.
+(* ------------------------------------------------------------------ the merge contract *)
+(* option strings identify one action; every action has at least one *)
+Definition table_wf (table : list opt) : Prop :=
+  NoDup (flat_map o_strings table) /\ Forall (fun o => o_strings o <> []) table.
+
+Lemma NoDup_app_disjoint : forall (A : Type) (l1 l2 : list A) x,
+  NoDup (l1 ++ l2) -> In x l1 -> In x l2 -> False.
+Proof.
+  induction l1 as [|a l1 IH]; intros l2 x H H1 H2; [destruct H1|].
+  cbn [app] in H. inversion H as [|? ? Ha Hr]; subst. destruct H1 as [->|H1].
+  - apply Ha. apply in_or_app. right. exact H2.
+  - eapply IH; eauto.
+Qed.
+
+Lemma NoDup_app_tail : forall (A : Type) (l1 l2 : list A), NoDup (l1 ++ l2) -> NoDup l2.
+Proof.
+  induction l1 as [|a l1 IH]; intros l2 H; [exact H|].
+  cbn [app] in H. inversion H; subst. apply IH. assumption.
+Qed.
+
+Lemma find_by_string_wf : forall table o s,
+  NoDup (flat_map o_strings table) -> In o table -> In s (o_strings o) -> find_by_string table s = Some o.
+Proof.
+  unfold find_by_string. induction table as [|o' table IH]; intros o s Hnd Ho Hs; [destruct Ho|].
+  cbn [flat_map] in Hnd. cbn [find].
+  destruct Ho as [->|Ho].
+  - replace (mem_text s (o_strings o)) with true by (symmetry; apply mem_text_In; exact Hs). reflexivity.
+  - destruct (mem_text s (o_strings o')) eqn:E.
+    + exfalso. apply mem_text_In in E. eapply NoDup_app_disjoint; [exact Hnd | exact E |].
+      apply in_flat_map. exists o. auto.
+    + apply IH; auto. eapply NoDup_app_tail. exact Hnd.
+Qed.
+
+Lemma find_by_key_in : forall table k o, find_by_key table k = Some o -> In o table /\ In k (o_keys o).
+Proof.
+  intros table k o H. unfold find_by_key in H. apply find_some in H. destruct H as [Hin Hk].
+  split; [apply in_rev; exact Hin | apply mem_text_In; exact Hk].
+Qed.
+
+Lemma last_in : forall (A : Type) (l : list A) d, l <> [] -> In (last l d) l.
+Proof.
+  induction l as [|x l IH]; intros d H; [congruence|].
+  destruct l as [|y l]; [left; reflexivity|]. right. apply IH. discriminate.
+Qed.
+
+Lemma last_string_in : forall table o, table_wf table -> In o table -> In (last_string o) (o_strings o).
+Proof.
+  intros table o [_ Hne] Hin. unfold last_string. apply last_in. rewrite Forall_forall in Hne. apply Hne. exact Hin.
+Qed.
+
+Lemma first_string_in : forall table o, table_wf table -> In o table -> In (first_string o) (o_strings o).
+Proof.
+  intros table o [_ Hne] Hin. unfold first_string. rewrite Forall_forall in Hne. specialize (Hne o Hin).
+  destruct (o_strings o); [congruence | left; reflexivity].
+Qed.
+
+(* two command lines that differ only in which spelling of an option they use *)
+Definition tok_equiv (table : list opt) (a b : tok) : Prop :=
+  t_val a = t_val b /\ find_by_string table (t_name a) = find_by_string table (t_name b).
+
+Lemma apply_tok_val : forall o a b ns, t_val a = t_val b -> apply_tok o a ns = apply_tok o b ns.
+Proof. intros o a b ns H. unfold apply_tok. rewrite H. reflexivity. Qed.
+
+Lemma argparse_respell : forall table a b, Forall2 (tok_equiv table) a b ->
+  forall ns ex, argparse table a ns ex = argparse table b ns ex.
+Proof.
+  intros table a b H. induction H as [|x y a b [Hv Hf] Hr IH]; intros ns ex; [reflexivity|].
+  cbn [argparse]. rewrite Hf. destruct (find_by_string table (t_name y)) as [o|]; [|apply IH].
+  rewrite (apply_tok_val o x y ns Hv). destruct (apply_tok o y ns); auto.
+Qed.
+
+Lemma same_option_equiv : forall table o s1 s2 v, table_wf table -> In o table ->
+  In s1 (o_strings o) -> In s2 (o_strings o) ->
+  tok_equiv table {| t_name := s1; t_val := v |} {| t_name := s2; t_val := v |}.
+Proof.
+  intros table o s1 s2 v [Hnd _] Ho H1 H2. split; [reflexivity|]. cbn [t_name].
+  rewrite (find_by_string_wf table o s1), (find_by_string_wf table o s2); auto.
+Qed.
+
+Section MergeFacts.
+  Variable table : list opt.
+  Hypothesis wf : table_wf table.
+
+  (* a plain value: `key = v` in the file is `--opt=v` on the command line, whichever spelling *)
+  Theorem file_value_equals_cli : forall key o v s,
+    find_by_key table key = Some o -> is_flag_kind (o_kind o) = false -> In s (o_strings o) ->
+    parse_known_args table [[(key, VStr v)]] [] = parse_known_args table [] [val_tok s v].
+  Proof.
+    intros key o v s Hk Hf Hs. destruct (find_by_key_in _ _ _ Hk) as [Ho _].
+    unfold parse_known_args. cbn [merge_files file_tokens]. rewrite Hk.
+    unfold on_command_line. cbn [existsb]. unfold convert_item. rewrite Hf. cbn [app].
+    apply argparse_respell. constructor; [|constructor].
+    apply (same_option_equiv table o); eauto using last_string_in.
+  Qed.
+
+  (* a list value on an append action: one `--opt=elem` per element, in order *)
+  Theorem file_list_equals_cli : forall key o l s,
+    find_by_key table key = Some o -> o_kind o = KAppend -> In s (o_strings o) ->
+    parse_known_args table [[(key, VList l)]] [] = parse_known_args table [] (map (val_tok s) l).
+  Proof.
+    intros key o l s Hk Hf Hs. destruct (find_by_key_in _ _ _ Hk) as [Ho _].
+    unfold parse_known_args. cbn [merge_files file_tokens]. rewrite Hk.
+    unfold on_command_line. cbn [existsb]. unfold convert_item. rewrite Hf. cbn [is_flag_kind app].
+    rewrite !app_nil_r. apply argparse_respell.
+    induction l as [|x l IH]; constructor; auto.
+    apply (same_option_equiv table o); eauto using last_string_in.
+  Qed.
+
+  (* flags *)
+  Theorem file_true_equals_flag : forall key o w s,
+    find_by_key table key = Some o -> is_flag_kind (o_kind o) = true -> In s (o_strings o) ->
+    is_ascii w = true -> mem_text (lower w) w_true = true ->
+    parse_known_args table [[(key, VStr w)]] [] = parse_known_args table [] [flag_tok s].
+  Proof.
+    intros key o w s Hk Hf Hs Ha Hw. destruct (find_by_key_in _ _ _ Hk) as [Ho _].
+    unfold parse_known_args. cbn [merge_files file_tokens]. rewrite Hk.
+    unfold on_command_line. cbn [existsb]. unfold convert_item. rewrite Hf, Ha, Hw. cbn [negb app].
+    apply argparse_respell. constructor; [|constructor].
+    apply (same_option_equiv table o); eauto using last_string_in.
+  Qed.
+
+  Theorem file_false_equals_absent : forall key o w,
+    find_by_key table key = Some o -> is_flag_kind (o_kind o) = true ->
+    is_ascii w = true -> mem_text (lower w) w_true = false -> mem_text (lower w) w_false = true ->
+    parse_known_args table [[(key, VStr w)]] [] = parse_known_args table [] [].
+  Proof.
+    intros key o w Hk Hf Ha Hw1 Hw2.
+    unfold parse_known_args. cbn [merge_files file_tokens]. rewrite Hk.
+    unfold on_command_line. cbn [existsb]. unfold convert_item. rewrite Hf, Ha, Hw1, Hw2. reflexivity.
+  Qed.
+
+  Theorem file_count_equals_repeated_flag : forall key o w z s,
+    find_by_key table key = Some o -> o_kind o = KCount -> In s (o_strings o) ->
+    is_ascii w = true -> mem_text (lower w) w_true = false -> mem_text (lower w) w_false = false ->
+    py_int w = IntOk z ->
+    parse_known_args table [[(key, VStr w)]] [] = parse_known_args table [] (repeat (flag_tok s) (Z.to_nat z)).
+  Proof.
+    intros key o w z s Hk Hf Hs Ha Hw1 Hw2 Hz. destruct (find_by_key_in _ _ _ Hk) as [Ho _].
+    unfold parse_known_args. cbn [merge_files file_tokens]. rewrite Hk.
+    unfold on_command_line. cbn [existsb]. unfold convert_item. rewrite Hf, Ha, Hw1, Hw2, Hz. cbn [is_flag_kind negb app].
+    rewrite !app_nil_r. apply argparse_respell.
+    induction (Z.to_nat z) as [|n IH]; constructor; auto.
+    apply (same_option_equiv table o); eauto using first_string_in.
+  Qed.
+
+  (* the command line overrides the file: an item whose action is named on the command line contributes nothing *)
+  Definition overridden (cli : list tok) (kv : text * cval) : bool :=
+    match find_by_key table (fst kv) with
+    | Some o => on_command_line o cli
+    | None => false
+    end.
+
+  Lemma file_tokens_override : forall items cli,
+    file_tokens table items cli = file_tokens table (filter (fun kv => negb (overridden cli kv)) items) cli.
+  Proof.
+    induction items as [|[k v] items IH]; intros cli; [reflexivity|].
+    cbn [filter]. unfold overridden at 1. cbn [fst].
+    destruct (find_by_key table k) as [o|] eqn:Ek.
+    - destruct (on_command_line o cli) eqn:Ec; cbn [negb].
+      + cbn [file_tokens]. rewrite Ek, Ec. apply IH.
+      + cbn [file_tokens]. rewrite Ek, Ec. rewrite <- IH. reflexivity.
+    - cbn [negb file_tokens]. rewrite Ek. rewrite <- IH. reflexivity.
+  Qed.
+
+  Theorem cli_overrides_file : forall items cli,
+    parse_known_args table [items] cli
+    = parse_known_args table [filter (fun kv => negb (overridden cli kv)) items] cli.
+  Proof.
+    intros items cli. unfold parse_known_args. cbn [merge_files]. rewrite <- file_tokens_override. reflexivity.
+  Qed.
+
+  Corollary cli_overrides_file_one : forall key o v cli,
+    find_by_key table key = Some o -> on_command_line o cli = true ->
+    parse_known_args table [[(key, v)]] cli = parse_known_args table [] cli.
+  Proof.
+    intros key o v cli Hk Hc. rewrite cli_overrides_file. cbn [filter]. unfold overridden. cbn [fst].
+    rewrite Hk, Hc. cbn [negb]. unfold parse_known_args. cbn [merge_files file_tokens app]. reflexivity.
+  Qed.
+End MergeFacts.
+(* ------------------------------------------------------------------ repeated options accumulate in order *)
+Lemma lookup_dict_set_same : forall (V : Type) k (v : V) d, lookup k (dict_set k v d) = Some v.
+Proof.
+  induction d as [|[k' v'] d IH]; cbn [dict_set lookup].
+  - rewrite text_eqb_refl. reflexivity.
+  - destruct (text_eqb k k') eqn:E; cbn [lookup]; rewrite ?text_eqb_refl, ?E; auto.
+Qed.
+
+Lemma dict_set_twice : forall (V : Type) k (v1 v2 : V) d, dict_set k v2 (dict_set k v1 d) = dict_set k v2 d.
+Proof.
+  induction d as [|[k' v'] d IH]; cbn [dict_set].
+  - rewrite text_eqb_refl. reflexivity.
+  - destruct (text_eqb k k') eqn:E; cbn [dict_set]; rewrite ?text_eqb_refl, ?E; [reflexivity|]. f_equal. exact IH.
+Qed.
+
+Definition ns_list (ns : namespace) (d : text) : list text :=
+  match ns_get ns d with NList l => l | _ => [] end.
+
+Lemma argparse_append_run : forall table o s, find_by_string table s = Some o -> o_kind o = KAppend ->
+  forall l rest ns ex, l <> [] ->
+  argparse table (map (val_tok s) l ++ rest) ns ex
+  = argparse table rest (dict_set (o_dest o) (NList (ns_list ns (o_dest o) ++ l)) ns) ex.
+Proof.
+  intros table o s Hf Hk. induction l as [|v l IH]; intros rest ns ex Hne; [congruence|].
+  change (map (val_tok s) (v :: l) ++ rest) with (val_tok s v :: (map (val_tok s) l ++ rest)).
+  cbn [argparse]. change (t_name (val_tok s v)) with s. rewrite Hf.
+  unfold apply_tok. rewrite Hk. change (t_val (val_tok s v)) with (Some v).
+  fold (ns_list ns (o_dest o)).
+  destruct l as [|v' l].
+  - reflexivity.
+  - rewrite IH by discriminate. unfold ns_list at 1, ns_get. rewrite lookup_dict_set_same.
+    rewrite dict_set_twice, <- app_assoc. reflexivity.
+Qed.
+
+(* on the command line alone: --opt=a --opt=b ... gives default ++ [a; b; ...] *)
+Theorem append_accumulates_in_order : forall table o s l, table_wf table -> In o table -> In s (o_strings o) ->
+  o_kind o = KAppend -> l <> [] ->
+  parse_known_args table [] (map (val_tok s) l)
+  = MOk (dict_set (o_dest o) (NList (ns_list (default_ns table) (o_dest o) ++ l)) (default_ns table)).
+Proof.
+  intros table o s l [Hnd Hne] Ho Hs Hk Hl. unfold parse_known_args. cbn [merge_files].
+  rewrite <- (app_nil_r (map (val_tok s) l)).
+  rewrite (argparse_append_run table o s) by (auto using find_by_string_wf). reflexivity.
+Qed.
+
+(* ------------------------------------------------------------------ section lookup *)
+Definition toml_absent (data : list (text * tomlv)) (p : list text) : Prop :=
+  get_toml_section data p = SNone \/ get_toml_section data p = SFound [].
+
+Theorem toml_first_section_wins : forall pre p post data kv,
+  Forall (toml_absent data) pre -> get_toml_section data p = SFound kv -> kv <> [] ->
+  toml_sections (pre ++ p :: post) data = toml_items kv [].
+Proof.
+  induction pre as [|x pre IH]; intros p post data kv Hpre Hp Hkv.
+  - cbn [app toml_sections]. rewrite Hp. destruct kv; [congruence | reflexivity].
+  - inversion Hpre as [|? ? Hx Hr]; subst. cbn [app toml_sections].
+    destruct Hx as [Hx|Hx]; rewrite Hx; apply IH; assumption.
+Qed.
+
+Theorem toml_no_section : forall paths data, Forall (toml_absent data) paths -> toml_sections paths data = POk [].
+Proof.
+  induction paths as [|x paths IH]; intros data H; [reflexivity|].
+  inversion H as [|? ? Hx Hr]; subst. cbn [toml_sections]. destruct Hx as [Hx|Hx]; rewrite Hx; apply IH; assumption.
+Qed.
+
+Lemma ini_sections_skip : forall sections split secs acc,
+  Forall (fun s => mem_text (fst s) sections = false) secs -> ini_sections sections split secs acc = POk acc.
+Proof.
+  induction secs as [|[n items] secs IH]; intros acc H; [reflexivity|].
+  inversion H as [|? ? Hx Hr]; subst. cbn [fst] in Hx. cbn [ini_sections]. rewrite Hx. apply IH. exact Hr.
+Qed.
+
+(* INI: section names are compared exactly; sections with other names do not contribute *)
+Lemma ini_single_section_acc : forall sections split pre name items post acc,
+  mem_text name sections = true ->
+  Forall (fun s => mem_text (fst s) sections = false) pre ->
+  Forall (fun s => mem_text (fst s) sections = false) post ->
+  ini_sections sections split (pre ++ (name, items) :: post) acc = ini_items split items acc.
+Proof.
+  intros sections split pre name items post acc Hn Hpre Hpost.
+  induction pre as [|[n its] pre IH].
+  - cbn [app ini_sections]. rewrite Hn. destruct (ini_items split items acc) eqn:E; try reflexivity.
+    apply ini_sections_skip. exact Hpost.
+  - inversion Hpre as [|? ? Hx Hr]; subst. cbn [fst] in Hx. cbn [app ini_sections]. rewrite Hx. apply IH. exact Hr.
+Qed.
+
+Theorem ini_single_section : forall sections split pre name items post,
+  mem_text name sections = true ->
+  Forall (fun s => mem_text (fst s) sections = false) pre ->
+  Forall (fun s => mem_text (fst s) sections = false) post ->
+  ini_parse sections split (pre ++ (name, items) :: post) = ini_items split items [].
+Proof. intros. unfold ini_parse. apply ini_single_section_acc; assumption. Qed.
+
+(* ------------------------------------------------------------------ facts about the table the source has NOW *)
+Definition nonempty_list {A : Type} (l : list A) : bool := match l with [] => false | _ => true end.
+
+Fixpoint nodup_textb (l : list text) : bool :=
+  match l with
+  | [] => true
+  | x :: r => negb (mem_text x r) && nodup_textb r
+  end.
+
+Lemma nodup_textb_sound : forall l, nodup_textb l = true -> NoDup l.
+Proof.
+  induction l as [|x l IH]; intros H; [constructor|].
+  cbn [nodup_textb] in H. apply andb_true_iff in H. destruct H as [H1 H2]. constructor; [|apply IH; exact H2].
+  intros Hin. apply mem_text_In in Hin. rewrite Hin in H1. discriminate.
+Qed.
+
+Lemma option_table_wf : table_wf option_table.
+Proof.
+  split.
+  - apply nodup_textb_sound. vm_compute. reflexivity.
+  - apply Forall_forall. intros o Ho.
+    assert (H : forallb (fun o => nonempty_list (o_strings o)) option_table = true) by (vm_compute; reflexivity).
+    rewrite forallb_forall in H. specialize (H o Ho). destruct (o_strings o); [discriminate | discriminate].
+Qed.
+(* ------------------------------------------------------------------ every option of the live table *)
+Lemma find_proj_wf : forall (proj : opt -> list text) table o s,
+  NoDup (flat_map proj table) -> In o table -> In s (proj o) ->
+  find (fun o => mem_text s (proj o)) table = Some o.
+Proof.
+  intros proj. induction table as [|o' table IH]; intros o s Hnd Ho Hs; [destruct Ho|].
+  cbn [flat_map] in Hnd. cbn [find].
+  destruct Ho as [->|Ho].
+  - replace (mem_text s (proj o)) with true by (symmetry; apply mem_text_In; exact Hs). reflexivity.
+  - destruct (mem_text s (proj o')) eqn:E.
+    + exfalso. apply mem_text_In in E. eapply NoDup_app_disjoint; [exact Hnd | exact E |].
+      apply in_flat_map. exists o. auto.
+    + apply IH; auto. eapply NoDup_app_tail. exact Hnd.
+Qed.
+
+Lemma option_keys_nodup : NoDup (flat_map o_keys (rev option_table)).
+Proof. apply nodup_textb_sound. vm_compute. reflexivity. Qed.
+
+Lemma option_key_resolves : forall o k, In o option_table -> In k (o_keys o) -> find_by_key option_table k = Some o.
+Proof.
+  intros o k Ho Hk. unfold find_by_key. apply find_proj_wf; auto using option_keys_nodup.
+  apply in_rev. rewrite rev_involutive. exact Ho.
+Qed.
+
+Lemma option_key_known : forall o k, In o option_table -> In k (o_keys o) -> mem_text k (known_keys option_table) = true.
+Proof. intros o k Ho Hk. apply mem_text_In. unfold known_keys. apply in_flat_map. exists o. auto. Qed.
+
+Lemma section_paths_agree : map parse_toml_section_name config_sections = config_section_paths.
+Proof. vm_compute. reflexivity. Qed.
+
+(* ------------------------------------------------------------------ whole pipeline, one key in one file *)
+Definition s_tool : text := [116; 111; 111; 108].
+Definition s_pydoctor : text := [112; 121; 100; 111; 99; 116; 111; 114].
+Definition s_tool_colon_pydoctor : text := [116; 111; 111; 108; 58; 112; 121; 100; 111; 99; 116; 111; 114].
+
+(* pyproject.toml:  [tool.pydoctor]  key = <v> *)
+Definition toml_file (key : text) (v : tomlv) : file_view :=
+  {| fv_toml := Some [(s_tool, TTable [(s_pydoctor, TTable [(key, v)])])]; fv_ini := None |}.
+
+(* setup.cfg / pydoctor.ini (not valid TOML):  [section]  key = <x>   as configparser hands it over *)
+Definition ini_file (section key x : text) : file_view :=
+  {| fv_toml := None; fv_ini := Some [(section, [(key, x)])] |}.
+
+Lemma toml_file_parse : forall key t,
+  composite_parse config_sections ini_split_ml (toml_file key (TStr t)) = POk [(key, VStr t)].
+Proof.
+  intros key t. unfold composite_parse, toml_file. cbn [fv_toml fv_ini].
+  unfold toml_parse. rewrite section_paths_agree. reflexivity.
+Qed.
+
+Lemma toml_file_parse_list : forall key l ts, strs l = Some ts ->
+  composite_parse config_sections ini_split_ml (toml_file key (TList l)) = POk [(key, VList ts)].
+Proof.
+  intros key l ts H. unfold composite_parse, toml_file. cbn [fv_toml fv_ini].
+  unfold toml_parse. rewrite section_paths_agree.
+  cbn. destruct l; cbn in *; [inversion H; reflexivity|]. rewrite H. reflexivity.
+Qed.
+
+Lemma ini_file_parse : forall section key x v, mem_text section config_sections = true ->
+  ini_value ini_split_ml x = IVal v ->
+  composite_parse config_sections ini_split_ml (ini_file section key x) = POk [(key, v)].
+Proof.
+  intros section key x v Hs Hv. unfold composite_parse, ini_file. cbn [fv_toml fv_ini].
+  unfold ini_parse. cbn [ini_sections]. rewrite Hs. cbn [ini_items]. rewrite Hv. reflexivity.
+Qed.
+
+Lemma validate_single_known : forall o key (v : cval), In o option_table -> In key (o_keys o) ->
+  validate option_table [(key, v)] = ([(key, v)], []).
+Proof.
+  intros o key v Ho Hk. unfold validate. cbn [validate_loop].
+  rewrite (option_key_known o key Ho Hk). reflexivity.
+Qed.
+
+Lemma validate_single_unknown : forall key (v : cval), ~ In key (known_keys option_table) ->
+  validate option_table [(key, v)] = ([], [key]).
+Proof.
+  intros key v H. unfold validate. cbn [validate_loop].
+  replace (mem_text key (known_keys option_table)) with false; [reflexivity|].
+  symmetry. apply not_true_is_false. intros E. apply H. apply mem_text_In. exact E.
+Qed.
+
+(* the pipeline on one file holding one key equals the merge contract on that key *)
+Lemma pipeline_single : forall f key v cli,
+  composite_parse config_sections ini_split_ml f = POk [(key, v)] ->
+  validate option_table [(key, v)] = ([(key, v)], []) ->
+  pydoctor_parse_args [f] cli
+  = match parse_known_args option_table [[(key, v)]] cli with
+    | MOk ns =>
+        match ns_get ns d_verbosity, ns_get ns d_quietness with
+        | NInt a, NInt b => RunOk (dict_set d_verbosity (NInt (a - b)%Z) ns) []
+        | _, _ => RunRaise
+        end
+    | MExit c => RunExit c
+    | MRaise => RunRaise
+    | MUnsup => RunUnsup
+    end.
+Proof.
+  intros f key v cli Hp Hv. unfold pydoctor_parse_args, parse_args. cbn [parse_files].
+  rewrite Hp, Hv. reflexivity.
+Qed.
+
+Lemma pipeline_nofile : forall cli,
+  pydoctor_parse_args [] cli
+  = match parse_known_args option_table [] cli with
+    | MOk ns =>
+        match ns_get ns d_verbosity, ns_get ns d_quietness with
+        | NInt a, NInt b => RunOk (dict_set d_verbosity (NInt (a - b)%Z) ns) []
+        | _, _ => RunRaise
+        end
+    | MExit c => RunExit c
+    | MRaise => RunRaise
+    | MUnsup => RunUnsup
+    end.
+Proof. reflexivity. Qed.
+
+Theorem pipeline_value_equals_cli : forall f o key v s,
+  In o option_table -> In key (o_keys o) -> is_flag_kind (o_kind o) = false -> In s (o_strings o) ->
+  composite_parse config_sections ini_split_ml f = POk [(key, VStr v)] ->
+  pydoctor_parse_args [f] [] = pydoctor_parse_args [] [val_tok s v].
+Proof.
+  intros f o key v s Ho Hk Hf Hs Hp.
+  rewrite (pipeline_single f key (VStr v) []); auto using (validate_single_known o).
+  rewrite pipeline_nofile.
+  rewrite (file_value_equals_cli option_table option_table_wf key o v s); auto using option_key_resolves.
+Qed.
+
+Theorem pipeline_list_equals_cli : forall f o key l s,
+  In o option_table -> In key (o_keys o) -> o_kind o = KAppend -> In s (o_strings o) ->
+  composite_parse config_sections ini_split_ml f = POk [(key, VList l)] ->
+  pydoctor_parse_args [f] [] = pydoctor_parse_args [] (map (val_tok s) l).
+Proof.
+  intros f o key l s Ho Hk Hf Hs Hp.
+  rewrite (pipeline_single f key (VList l) []); auto using (validate_single_known o).
+  rewrite pipeline_nofile.
+  rewrite (file_list_equals_cli option_table option_table_wf key o l s); auto using option_key_resolves.
+Qed.
+
+Theorem pipeline_cli_overrides : forall f o key v cli,
+  In o option_table -> In key (o_keys o) -> on_command_line o cli = true ->
+  composite_parse config_sections ini_split_ml f = POk [(key, v)] ->
+  pydoctor_parse_args [f] cli = pydoctor_parse_args [] cli.
+Proof.
+  intros f o key v cli Ho Hk Hc Hp.
+  rewrite (pipeline_single f key v cli); auto using (validate_single_known o).
+  rewrite pipeline_nofile.
+  rewrite (cli_overrides_file_one option_table key o v cli); auto using option_key_resolves.
+Qed.
+
+(* an unknown key: one warning, nothing applied, no abort *)
+Theorem pipeline_unknown_key : forall f key v cli,
+  ~ In key (known_keys option_table) ->
+  composite_parse config_sections ini_split_ml f = POk [(key, v)] ->
+  pydoctor_parse_args [f] cli
+  = match pydoctor_parse_args [] cli with
+    | RunOk ns _ => RunOk ns [key]
+    | r => r
+    end.
+Proof.
+  intros f key v cli Hk Hp. rewrite pipeline_nofile.
+  unfold pydoctor_parse_args, parse_args. cbn [parse_files]. rewrite Hp, (validate_single_unknown key v Hk).
+  cbn [app]. unfold parse_known_args. cbn [merge_files file_tokens app].
+  destruct (argparse option_table cli (default_ns option_table) false); try reflexivity.
+  destruct (ns_get ns d_verbosity); try reflexivity. destruct (ns_get ns d_quietness); reflexivity.
+Qed.
